@@ -8,5 +8,5 @@ import sys; sys.path.insert(0,'/verif/lib'); import common
 common.build_overlay('$d/ov', kani=True, replay=False, allow_unsafe=True)
 PY
 cd $d/ov && CARGO_NET_OFFLINE=true timeout ${CAP:-1800} cargo kani -Z stubbing --harness $h --target-dir $d/tgt "$@" > $d/out.log 2>&1
-echo "exit=$?"; grep -E "VERIFICATION|Failed Checks|unwinding assertion|Verification Time|cover properties|error" $d/out.log | head -20
+echo "exit=$?"; grep -E "VERIFICATION|Failed Checks|unwinding assertion|Verification Time|cover properties|^error" $d/out.log | head -20
 rm -rf $d/tgt
